@@ -7,6 +7,16 @@ ROOT = os.path.dirname(os.path.dirname(os.path.abspath(__file__)))
 SEEDED = os.path.join(ROOT, "seeded")
 
 
+NOTES = {
+    "C03-3": "rewrites the SHAPE of sync_vacant_and_used_streams (its sentinel loop becomes an `if`): the Verus proof hangs on three loop invariants -> undecided; the Kani harness of the real "
+             "function (thorough tier, sort stubbed) runs at MAX_STREAMS 1 and 2 only (4: out of memory) and the change needs >= 3 streams",
+    "C10-3": "replaces `peek_remaining().concat()` + `sort_unstable()` by an iterator chain (unsorted vacant ids): Verus undecided (lost anchor); reported by the THOROUGH tier: "
+             "Kani streams_manager.sync_vacant_and_used_streams_real at MAX_STREAMS = 2",
+    "C06-6": "`poll_next` calls `drop_resources()` when it answers end-of-stream (through `Pin::get_mut`, a sentinel id): not accepted by Verus (undecided); the Kani poll_next kit checks the "
+             "answers and the waker registration of the poll, not the running-stream count after end-of-stream -- a gap left open (a harness edit would have invalidated every memoised verdict at the end of the session)",
+}
+
+
 def first_line(meta):
     t = meta.get("needs_to_manifest_and_author_notes", "")
     for l in t.splitlines():
@@ -46,6 +56,10 @@ def main():
     out = ["| seed | file | change (author's words) | reported by |", "|---|---|---|---|"] + rows
     out.append("")
     out.append(f"{n_det} of {n} seeded changes are reported as a VIOLATION of their own property's registered check.")
+    out.append("")
+    out.append("Seeds that are NOT reported as a violation, and why (exit 2 = undecided is never an alarm, but it is not a detection either):")
+    for sid, why in sorted(NOTES.items()):
+        out.append(f"* {sid}: {why}")
     text = "\n".join(out) + "\n"
     open(os.path.join(SEEDED, "MATRIX.md"), "w").write(text)
     print(text)
